@@ -9,7 +9,6 @@ import (
 
 	"github.com/anishathalye/porcupine"
 
-	"verif/internal/ev"
 	"verif/internal/fakejwks"
 )
 
@@ -170,7 +169,7 @@ func errClass(s string) string {
 
 // judgePhase applies the per-call oracle and the structural clauses (single flight, one refresh per verification, no
 // parked-forever waiters) to one phase. It returns the findings (possibly several of different classes).
-func judgePhase(run *ev.Run, rr *roundRec, pi int, ph *phaseRec) []finding {
+func judgePhase(run *stats, rr *roundRec, pi int, ph *phaseRec) []finding {
 	var out []finding
 	add := func(f finding) { out = append(out, f) }
 	// structural: downloads never overlap
